@@ -526,6 +526,12 @@ func (e *Engine) lemmaObligations(names []string) (*Ctx, error) {
 			return nil, fmt.Errorf("lemma %s: %v", n, err)
 		}
 		ctx.AddOblig(&Obligation{Name: "lemma#" + n, Kind: "lemma", Clause: found.Text, Reach: "true", Goal: g})
+		// lemmas are proved in plan order; each is available to the later ones
+		plain, err := env.evalBool(found.E)
+		if err != nil {
+			return nil, fmt.Errorf("lemma %s: %v", n, err)
+		}
+		ctx.Fact(plain)
 	}
 	ctx.AddOblig(&Obligation{Name: "lemma#canary", Kind: "canary", Reach: "true", Goal: "false", ExpectFail: true, Clause: "axioms are satisfiable"})
 	return ctx, nil
